@@ -219,7 +219,10 @@ class SqlColumnVisitor(
             return sqlalchemy.sql.and_(
                 *[
                     target,
-                    sql_member % sqlalchemy.literal(step) == sqlalchemy.literal(start % step),
+                    # The member is not below start here, so the difference is
+                    # not negative and the database's truncating remainder
+                    # agrees with the mathematical one.
+                    (sql_member - sqlalchemy.literal(start)) % sqlalchemy.literal(step) == sqlalchemy.literal(0),
                 ]
             )
         else:
